@@ -54,9 +54,11 @@ Theorem established_undisturbed : forall es s k c,
   nth_error (i_conns s) k = Some c -> nth_error (i_conns (final s es)) k = Some c.
 Proof.
   induction es as [|e es IH]; intros s k c H; cbn [final]; [exact H|].
-  apply IH. destruct e as [|good i|j|wc]; cbn [istep fst i_conns].
-  - rewrite nth_error_app1; [exact H|]. apply nth_error_Some. rewrite H. discriminate.
+  apply IH. destruct e as [|good i|j|kd|wc]; cbn [istep fst i_conns].
+  - destruct (admitted (snd (i_cur s)) 1); cbn [fst i_conns]; [|exact H].
+    rewrite nth_error_app1; [exact H|]. apply nth_error_Some. rewrite H. discriminate.
   - destruct good; exact H.
+  - exact H.
   - exact H.
   - exact H.
 Qed.
@@ -73,8 +75,9 @@ Theorem handshake_sees_latest : forall es s,
   i_cur (final s es) = last_reload (i_cur s) es.
 Proof.
   induction es as [|e es IH]; intros s; cbn [final last_reload]; [reflexivity|].
-  rewrite IH. destruct e as [|good i|j|wc]; cbn [istep fst i_cur]; try reflexivity.
-  destruct good; reflexivity.
+  rewrite IH. destruct e as [|good i|j|kd|wc]; cbn [istep fst i_cur]; try reflexivity.
+  - destruct (admitted (snd (i_cur s)) 1); reflexivity.
+  - destruct good; reflexivity.
 Qed.
 
 (* a returning client (session cache from an earlier connection) gets no more and sees nothing older than a
@@ -82,11 +85,23 @@ Qed.
    and it sees that identity's certificate *)
 Theorem returning_sees_latest es s wc :
   let cur := last_reload (i_cur s) es in
-  snd (istep (final s es) (IReturning wc)) = if negb (snd cur) || wc then [1; fst cur] else [0].
+  snd (istep (final s es) (IReturning wc)) =
+  if admitted (snd cur) (if wc then 1 else 0) then [1; fst cur] else [0].
 Proof. cbv zeta. rewrite <- handshake_sees_latest. reflexivity. Qed.
 
-Theorem handshake_output s : snd (istep s IHandshake) = [1; fst (i_cur s); b2n (snd (i_cur s))].
-Proof. reflexivity. Qed.
+(* so is a new client: admitted iff no client CA is configured or its certificate is under the CA that the file held
+   at the last successful reload (not under one it held earlier), and it sees the latest certificate *)
+Theorem fresh_sees_latest es s kind :
+  let cur := last_reload (i_cur s) es in
+  snd (istep (final s es) (IFresh kind)) = if admitted (snd cur) kind then [1; fst cur] else [0].
+Proof. cbv zeta. rewrite <- handshake_sees_latest. reflexivity. Qed.
+
+Theorem admitted_iff ca kind : admitted ca kind = true <-> ca = 0 \/ ca = kind.
+Proof. unfold admitted. rewrite Bool.orb_true_iff, !N.eqb_eq. reflexivity. Qed.
+
+Theorem handshake_output s : admitted (snd (i_cur s)) 1 = true ->
+  snd (istep s IHandshake) = [1; fst (i_cur s); if snd (i_cur s) =? 0 then 0 else 1].
+Proof. intros H. cbn [istep]. rewrite H. reflexivity. Qed.
 
 (* a failed reload changes nothing *)
 Theorem failed_reload_keeps_identity s i : fst (istep s (IReload false i)) = s.
